@@ -155,6 +155,67 @@ func (c *call) HasUndefined() bool {
 	return false
 }
 
+// TypeParam returns a type parameter that is part of the type of one of the arguments, or nil.
+// A derive call in a generic function can have such arguments; the generated functions are not generic.
+func (c *call) TypeParam() *types.TypeParam {
+	for i := range c.Args {
+		if c.Args[i] == nil {
+			continue
+		}
+		if tp := typeParamIn(c.Args[i]); tp != nil {
+			return tp
+		}
+	}
+	return nil
+}
+
+// typeParamIn returns a type parameter that the type mentions, or nil.
+// Only the type arguments of a named type are looked at: a type cannot be declared inside a generic function,
+// so the definition of a named type cannot mention the type parameters of the function that contains the call.
+func typeParamIn(typ types.Type) *types.TypeParam {
+	switch t := types.Unalias(typ).(type) {
+	case *types.TypeParam:
+		return t
+	case *types.Named:
+		for i := 0; i < t.TypeArgs().Len(); i++ {
+			if tp := typeParamIn(t.TypeArgs().At(i)); tp != nil {
+				return tp
+			}
+		}
+	case *types.Pointer:
+		return typeParamIn(t.Elem())
+	case *types.Slice:
+		return typeParamIn(t.Elem())
+	case *types.Array:
+		return typeParamIn(t.Elem())
+	case *types.Chan:
+		return typeParamIn(t.Elem())
+	case *types.Map:
+		if tp := typeParamIn(t.Key()); tp != nil {
+			return tp
+		}
+		return typeParamIn(t.Elem())
+	case *types.Struct:
+		for i := 0; i < t.NumFields(); i++ {
+			if tp := typeParamIn(t.Field(i).Type()); tp != nil {
+				return tp
+			}
+		}
+	case *types.Tuple:
+		for i := 0; i < t.Len(); i++ {
+			if tp := typeParamIn(t.At(i).Type()); tp != nil {
+				return tp
+			}
+		}
+	case *types.Signature:
+		if tp := typeParamIn(t.Params()); tp != nil {
+			return tp
+		}
+		return typeParamIn(t.Results())
+	}
+	return nil
+}
+
 // hasInvalidType returns whether an invalid type, for example the type of a field that is declared with an undefined type,
 // is part of the type or of the definition of one of the named types it refers to.
 // A named type is printed as its name, so String does not show an invalid type inside its definition.
